@@ -118,6 +118,7 @@ fn check_case(c: &HistCase, st: &mut Stats, ss: &mut ShardState) {
     st.add("rules_correctly_silent_in_first_fire_all", obs.rules_not_fired_when_unsatisfied);
     st.add("view_comparisons(4_views_x_every_issued_handle)", obs.view_checks);
     st.add("handles_issued", obs.handles_issued);
+    st.add("working_memory_clear_calls", obs.working_memory_clears);
     st.add("firings_after_an_action_changed_working_memory", obs.firings_after_wm_change_by_action);
     st.add("retractions_requested_by_actions", obs.retractions_by_action);
     st.add("actions_that_modified_the_flattened_copy", obs.updates_by_action_observed);
